@@ -1,12 +1,157 @@
 (* C02  Tile addresses mean what the capabilities documents say they mean.
-   Property theorems only; proofs live in theories/TileSvc_proofs.v. *)
+   Property theorems only; proofs live in theories/TileSvc_proofs.v.  Model: theories/TileSvc.v on top of the exact
+   grid model Grid.v.  `served s srv a` is the internal coordinate handed to the tile manager for address `a`
+   (srv = the `origin` option of the tms service), `client_rect s srv a` the rectangle a standards-following
+   client computes for `a` from the service's own capabilities document, `tile_bbox_c g c` the ground rectangle
+   of the internal tile c. *)
 From Coq Require Import ZArith List Bool.
 Import ListNotations.
 From MP Require Import Grid Grid_proofs TileSvc TileSvc_proofs.
 Local Open Scope Z_scope.
+
+(* WMTS (KVP and RESTful): for every grid that _matrix_sets does not skip, every advertised TileMatrix and every
+   (col, row) inside the advertised matrix dimensions the request is served, and the tile that is loaded covers
+   exactly the rectangle the client derives from TopLeftCorner (axis order swap included), ScaleDenominator,
+   TileWidth/Height - for both grid origins, aligned or not.  Needs: no sqrt2 level skip (finding W1). *)
+Theorem wmts_address_exact :
+  forall s srv m col row r,
+    0 < s_mpu_n s -> 0 < s_mpu_d s -> skip_odd s = false ->
+    client_rect s srv (AWmts m col row) = Some r ->
+    exists c, served s srv (AWmts m col row) = Some c /\ tile_bbox_c (sg s) c = r.
+Proof. exact wmts_address_exact_l. Qed.
+
+(* The statement without the hypothesis is false of the code (W1): on a sqrt2 grid the advertised matrix m is
+   served from internal level 2m. *)
+Theorem wmts_address_refuted :
+  exists s srv m col row r c,
+    wf (sg s) /\ 0 < s_mpu_n s /\ 0 < s_mpu_d s /\ skip_odd s = true /\
+    client_rect s srv (AWmts m col row) = Some r /\ served s srv (AWmts m col row) = Some c /\
+    tile_bbox_c (sg s) c <> r.
+Proof. exact wmts_address_refuted_l. Qed.
 
 (* The pixel span a WMTS client derives from the advertised ScaleDenominator is exactly the level resolution. *)
 Theorem wmts_scale_denominator_exact :
   forall s l, 0 < s_mpu_n s -> 0 < s_mpu_d s ->
     wmts_client_res (s_mpu_n s) (s_mpu_d s) (wmts_matrix s l) = res_at (sg s) l.
 Proof. exact wmts_client_res_exact. Qed.
+
+(* TMS: every advertised TileSet (order, units-per-pixel) carries the resolution of the internal level that a
+   request for that order is mapped to - with the hidden level 0 of the global profiles and the sqrt2 level skip. *)
+Theorem tile_sets_internal_level_consistent :
+  forall s order upp,
+    In (order, upp) (tile_sets s) ->
+    valid_level (sg s) (public_level s true order) = true /\ res_at (sg s) (public_level s true order) = upp.
+Proof. exact tile_sets_internal_level_consistent_l. Qed.
+
+(* TMS: if the layer extent is the grid bbox and the grid origin is ll - or, for ul grids, the bottom of the tiled
+   area of that level is the bottom of the bbox - the tile served for z/x/y covers exactly the rectangle computed
+   from Origin, units-per-pixel of order z and the tile size. *)
+Theorem tms_address_exact :
+  forall s srv z x y r c,
+    s_extent s = grid_bbox (sg s) ->
+    (ul (sg s) = false \/ misalign (sg s) (public_level s true z) = 0) ->
+    tms_client_rect (tms_tilemap s) z x y = Some r ->
+    served s srv (ATms z x y) = Some c ->
+    tile_bbox_c (sg s) c = r.
+Proof. exact tms_address_exact_l. Qed.
+
+(* The hypothesis excludes exactly the defect class F8: the served tile covers the client's rectangle if and only if
+   the advertised Origin is the south-west corner of tile (0, 0) of that level; in general the two rectangles
+   differ by the offset between them. *)
+Theorem tms_address_exact_iff :
+  forall s srv z x y r c,
+    tms_client_rect (tms_tilemap s) z x y = Some r ->
+    served s srv (ATms z x y) = Some c ->
+    (tile_bbox_c (sg s) c = r <-> tms_origin_ok s (public_level s true z)).
+Proof. exact tms_address_exact_iff_l. Qed.
+
+(* F8, first class: 'ul' grid whose height is not a multiple of the tile span (bbox [0,0,1000,700], res 4, 100 px). *)
+Theorem tms_address_refuted :
+  exists s srv z x y r c,
+    wf (sg s) /\ s_extent s = grid_bbox (sg s) /\
+    tms_client_rect (tms_tilemap s) z x y = Some r /\ served s srv (ATms z x y) = Some c /\
+    tile_bbox_c (sg s) c <> r.
+Proof. exact tms_address_refuted_l. Qed.
+
+(* F8, second class: the layer extent differs from the grid bbox (origin ll). *)
+Theorem tms_address_refuted_extent :
+  exists s srv z x y r c,
+    wf (sg s) /\ ul (sg s) = false /\
+    tms_client_rect (tms_tilemap s) z x y = Some r /\ served s srv (ATms z x y) = Some c /\
+    tile_bbox_c (sg s) c <> r.
+Proof. exact tms_address_refuted_extent_l. Qed.
+
+(* TMS: an address of an advertised order inside the grid of its level is served. *)
+Theorem tms_advertised_served :
+  forall s srv z x y u,
+    lookup_order z (tile_sets s) = Some u ->
+    0 <= x < fst (grid_size (sg s) (public_level s true z)) ->
+    0 <= y < snd (grid_size (sg s) (public_level s true z)) ->
+    exists c, served s srv (ATms z x y) = Some c.
+Proof. exact tms_advertised_served_l. Qed.
+
+(* /tiles with ?origin= or the origin option of the service: the served tile covers the rectangle counted from
+   the corner of the grid bbox named by the effective origin, whenever that origin is the grid's own or the level
+   is aligned. *)
+Theorem origin_override_exact :
+  forall s srv q z x y r c,
+    let l := public_level s false z in
+    (effective_origin (sg s) (request_origin srv q) = ul (sg s) \/ misalign (sg s) l = 0) ->
+    client_rect s srv (ATiles q z x y) = Some r ->
+    served s srv (ATiles q z x y) = Some c ->
+    tile_bbox_c (sg s) c = r.
+Proof. exact tiles_address_exact_l. Qed.
+
+(* the request parameter wins over the service option *)
+Theorem origin_param_wins :
+  forall s srv srv' q z x y,
+    q <> ONone -> served s srv (ATiles q z x y) = served s srv' (ATiles q z x y).
+Proof. exact origin_param_wins_l. Qed.
+
+(* KML image addresses (origin forced to 'sw', no profile level skip). *)
+Theorem kml_address_exact :
+  forall s srv z x y r c,
+    (ul (sg s) = false \/ misalign (sg s) (public_level s false z) = 0) ->
+    client_rect s srv (AKml z x y) = Some r ->
+    served s srv (AKml z x y) = Some c ->
+    tile_bbox_c (sg s) c = r.
+Proof. exact kml_address_exact_l. Qed.
+
+(* KML super-overlay: the address written into the link of a sub-tile is answered with that sub-tile
+   (no sqrt2 level skip). *)
+Theorem kml_href_roundtrip :
+  forall s srv x y l h,
+    skip_odd s = false ->
+    limit_tile (sg s) x y l = Some (x, y, l) ->
+    kml_href_coord s (x, y, l) = Some h ->
+    let '(hx, hy, hz) := h in served s srv (AKml hz hx hy) = Some (x, y, l).
+Proof. exact kml_href_roundtrip_l. Qed.
+
+(* finding K1: with the sqrt2 level skip on a ul grid the link names another tile *)
+Theorem kml_href_refuted :
+  exists s srv x y l hx hy hz,
+    wf (sg s) /\ skip_odd s = true /\ ul (sg s) = true /\ limit_tile (sg s) x y l = Some (x, y, l) /\
+    kml_href_coord s (x, y, l) = Some (hx, hy, hz) /\ served s srv (AKml hz hx hy) <> Some (x, y, l).
+Proof. exact kml_href_refuted_l. Qed.
+
+(* Same ground tile, same image: two addresses - any two services (TMS, tiles, KML, WMTS), any origin conventions -
+   for which the clients compute the same rectangle are answered from the same internal tile coordinate.
+   addr_ok is the per-address hypothesis of the exactness theorems above. *)
+Theorem same_ground_tile_same_internal :
+  forall s srv a1 a2 r c1 c2,
+    wf (sg s) -> decreasing_res (sg s) ->
+    addr_ok s srv a1 -> addr_ok s srv a2 ->
+    client_rect s srv a1 = Some r -> client_rect s srv a2 = Some r ->
+    served s srv a1 = Some c1 -> served s srv a2 = Some c2 ->
+    c1 = c2.
+Proof. exact same_ground_tile_same_internal_l. Qed.
+
+(* WMS-C: a GetMap with tiled=true is either refused / blank or answered with a stored tile every edge of which
+   lies within 1/10 pixel of the requested rectangle (so never with a neighbouring tile); the size is the tile size.
+   wmsc_partial: that the rectangles derived from the advertised TileSet are *served* (not refused) when the
+   hypotheses of tms_address_exact hold is validated by the correspondence only (needs closest_level). *)
+Theorem wmsc_exact_or_refused :
+  forall g b sx sy c,
+    wmsc_get_map g b sx sy = WLoaded c ->
+    sx = tw g /\ sy = th g /\ bbox_equals_tenth b (tile_bbox_c g c) sx sy = true.
+Proof. exact wmsc_exact_or_refused_l. Qed.
